@@ -72,3 +72,44 @@ Fixpoint spec_bad_m (sel : stat -> bool) (pks : list packet) (s : sspec) (i : na
 
 Definition spec_bad_opt (mo : option (stat -> bool)) (pks : list packet) : option nat :=
   match mo with None => spec_bad pks sspec_init 0 | Some sel => spec_bad_m sel pks sspec_init 0 end.
+
+(* ---- content for an id whose transfer has already ended (oracle of kind 0302 only) ----
+   The first DATA packet (with or without bytes) for an id that an earlier STAT announced as a
+   regular file to be transferred and that an earlier empty DATA packet has terminated.  Result:
+   the index of the packet, the path of the id, and the bytes that were sent for the id before
+   its terminator.  The receiver must fail, and what is stored under the path afterwards must
+   not contain anything sent after the terminator.  [reg]: which STATs announce such an id
+   (without MetadataOnly: regular, no link name). *)
+Record lspec := { ls_next : N; ls_paths : list (N * bytes); ls_data : list (N * bytes); ls_term : list N }.
+Definition lspec_init : lspec := {| ls_next := 0; ls_paths := []; ls_data := []; ls_term := [] |}.
+
+Fixpoint spec_late (reg : stat -> bool) (pks : list packet) (s : lspec) (i : nat) : option (nat * bytes * bytes) :=
+  match pks with
+  | [] => None
+  | PFin :: _ => None
+  | PErr :: _ => None
+  | POther :: r => spec_late reg r s (S i)
+  | PStat None :: r => spec_late reg r s (S i)
+  | PStat (Some st) :: r =>
+    spec_late reg r {| ls_next := ls_next s + 1;
+                       ls_paths := if reg st then (ls_next s, st_path st) :: ls_paths s else ls_paths s;
+                       ls_data := ls_data s; ls_term := ls_term s |} (S i)
+  | PData id d :: r =>
+    match alookup id (ls_paths s) with
+    | None => spec_late reg r s (S i)
+    | Some p =>
+      let pre := match alookup id (ls_data s) with Some b => b | None => [] end in
+      if memN id (ls_term s) then Some (i, p, pre)
+      else if is_nil d then
+        spec_late reg r {| ls_next := ls_next s; ls_paths := ls_paths s; ls_data := ls_data s; ls_term := id :: ls_term s |} (S i)
+      else
+        spec_late reg r {| ls_next := ls_next s; ls_paths := ls_paths s; ls_data := aset id (pre ++ d) (ls_data s);
+                           ls_term := ls_term s |} (S i)
+    end
+  end.
+
+Definition late_reg (mo : option (stat -> bool)) (st : stat) : bool :=
+  mode_is_regular (st_mode st) && is_nil (st_linkname st)
+  && match mo with Some sel => sel st && negb (is_listing st) | None => true end.
+Definition spec_late_opt (mo : option (stat -> bool)) (pks : list packet) : option (nat * bytes * bytes) :=
+  spec_late (late_reg mo) pks lspec_init 0.
